@@ -570,6 +570,8 @@ impl<'a, T: RealNumber, M: Matrix<T>, K: Kernel<T, M::RowVector>> Optimizer<'a, 
         let mut rng = rand::thread_rng();
         let mut range: Vec<usize> = (0..n).collect();
         range.shuffle(&mut rng);
+        #[cfg(feature = "verif-hooks")]
+        crate::verif_hooks::reshuffle(crate::verif_hooks::Draw::SvcShuffle, &mut range);
         range
     }
 
